@@ -6,7 +6,7 @@ Open Scope Z_scope.
 (* route (ops 1, 2): see `op` below.
    op 1 basic : [1; VB Authorization; VZ decoded_ok; VB decoded; VL [[VB user; VZ password_matches_hash; VB hash; VZ line style] ...]; VZ route]
                                                                                       => [accepted; status]
-   op 2 jwt   : [2; VB Authorization; VZ malformed; VZ alg; VL [[kind value] x3] (exp iat nbf); VZ now;
+   op 2 jwt   : [2; VB Authorization; VZ malformed; VZ alg; VL [[kind value spelling] x3] (exp iat nbf); VZ now;
                  VL [[kty declared_alg signature_verifies] ...]; VZ route; key-set id (opaque)]   => [accepted; status]
    op 3 link  : [3; VZ has_expires_key; VB expires; VB checksum; VB md5 digest; VZ now; label; host; query value v;
                  mode (opaque; 1 = expires and now are relative to the wall clock at the time of the call)]
@@ -16,8 +16,10 @@ Open Scope Z_scope.
    op 4 block : [4; VZ ip_in_global_table; VZ has_global_rules; VL [[match cmd] ...]; VZ has_product_rules;
                  VL [[match cmd] ...]; blocklist; client (opaque)]                    => [conn_refused; req_closed] *)
 Definition b (z : Z) : bool := negb (z =? 0).
-Definition dec_opt (v : val) : option claim :=      (* [kind value]: kind 0 absent, 1 number, other = non-numeric JSON *)
-  match v with VL [VZ p; VZ x] => Some (if p =? 0 then CAbsent else if p =? 1 then CNum x else CBad) | _ => None end.
+Definition dec_opt (v : val) : option claim :=
+  (* [kind value spelling]: kind 0 absent, 1 JSON number (value = its integer part; spelling, opaque: N, N.0, N.5,
+     exponent forms - every spelling of a NumericDate must be enforced at whole seconds), other = non-numeric JSON *)
+  match v with VL [VZ p; VZ x; VZ _] => Some (if p =? 0 then CAbsent else if p =? 1 then CNum x else CBad) | _ => None end.
 Definition dec_claims (v : val) : option claims :=
   match v with
   | VL [e; i; n] => match dec_opt e, dec_opt i, dec_opt n with
